@@ -197,7 +197,8 @@ CHECKS["C16"] = dict(level="exploration", ref="DESIGN.md §4 C16, §9",
          "spec/Hostile.tla: (a) after a genuine handshake a mutated frame (8 honest frame kinds x length field values, magic, version, 29 type bytes, truncation at every "
          "offset 8-59, body byte flips, compressed-envelope size / method, random frames, with and without a size limit) is injected into the live connection; the "
          "attacked node must not die, a request between two local processes and one over an unrelated connection must still be served, in bounded time and live-heap "
-         "growth, and after a complete well-framed injection the attacked connection itself either still carries honest messages or is closed (QueueNotStuck); (b) the real decoder is fed with mutated encodings of a 20-value corpus (truncation, 0xff / 0x00 at every offset, type tags, duplicated tails): value or "
+         "growth, and after a complete well-framed injection the attacked connection itself either still carries honest messages or is closed (QueueNotStuck); (a') the handshake messages of an honest pair are rewritten on the path in both directions (a flipped byte at any offset, a cut, an entry of the error cache "
+         "turned into the nil error - the digests cover salt and cookie only): the nodes go on serving; (b) the real decoder is fed with mutated encodings of a 20-value corpus (truncation, 0xff / 0x00 at every offset, type tags, duplicated tails): value or "
          "error, no panic, no hang, allocation bounded by 64 x input + 8 MiB, and a decoded value re-encodes to bytes that decode to an equal value.",
     note="Trusted: TLC. 'All byte strings' is not enumerable: coverage is the mutation grammar (plus seeded random frames); the handshake reader is attacked in C15's "
          "replay / garbage / truncation cases. Open known finding P12b (declared unpacked size is allocated up front).",
